@@ -30,19 +30,28 @@ def cmdPrelude (cmd : Bytes) (st : MState) : Option MState :=
     else some st
   else some st
 
+/-- the main loop, unless the header prelude refused the header -/
+def runStage (pattern cmd : Bytes) (hn : Bool) (dflt : Int) (fuel : Nat) (nums : List Int) (oob0 : Bool)
+    (o : Option MState) : Bool × List Int × Bool :=
+  match o with
+  | none => (false, nums, oob0)
+  | some st =>
+    ((mainLoop pattern cmd hn dflt fuel st).1, (mainLoop pattern cmd hn dflt fuel st).2.numbers,
+     (mainLoop pattern cmd hn dflt fuel st).2.oob)
+
+/-- everything after the query check -/
+def bodyStage (pattern cmd : Bytes) (numbers : Option (List Int)) (dflt : Int) (plen : Int) (clen : Nat) :
+    Bool × List Int × Bool :=
+  let st := patPrelude pattern ⟨0, plen, 0, clen, 0, numbers.getD [], 0, plen == 0 ∧ pattern.isEmpty⟩
+  runStage pattern cmd numbers.isSome dflt (pattern.length + cmd.length + 4) (numbers.getD []) st.oob
+    (cmdPrelude cmd st)
+
 theorem matchCommand_stages (pattern cmd : Bytes) (len : Nat) (numbers : Option (List Int)) (dflt : Int) :
     matchCommand pattern cmd len numbers dflt =
       match qStage pattern cmd len with
       | none => (false, numbers.getD [], ((pattern.takeWhile (· ≠ 0)).length : Int) == 0)
-      | some (plen, clen) =>
-        let st := patPrelude pattern ⟨0, plen, 0, clen, 0, numbers.getD [], 0, plen == 0 ∧ pattern.isEmpty⟩
-        match cmdPrelude cmd st with
-        | none => (false, numbers.getD [], st.oob)
-        | some st =>
-          ((mainLoop pattern cmd numbers.isSome dflt (pattern.length + cmd.length + 4) st).1,
-           (mainLoop pattern cmd numbers.isSome dflt (pattern.length + cmd.length + 4) st).2.numbers,
-           (mainLoop pattern cmd numbers.isSome dflt (pattern.length + cmd.length + 4) st).2.oob) := by
-  unfold matchCommand qStage patPrelude cmdPrelude
+      | some (plen, clen) => bodyStage pattern cmd numbers dflt plen clen := by
+  unfold matchCommand qStage bodyStage runStage patPrelude cmdPrelude
   rfl
 
 theorem takeWhile_nz (s : Bytes) (h : ∀ b ∈ s, b ≠ 0) : s.takeWhile (· ≠ 0) = s := by
@@ -66,7 +75,7 @@ theorem qStage_eval (pat hdr : Bytes) (hpz : ∀ b ∈ pat, b ≠ 0) (hhz : ∀ 
   simp
 
 /-- the pattern prelude on the three ways to write the first keyword -/
-theorem patPrelude_item (pat : Bytes) (k : Kw) (hk : KwOK k) (rest : Bytes) (pl : Int) (cl : Nat)
+theorem patPrelude_item (pat : Bytes) (k : Kw) (hk : KwW k) (rest : Bytes) (pl : Int) (cl : Nat)
     (nums : List Int) (oob : Bool) (hpat : pat = item k ++ rest) :
     patPrelude pat ⟨0, pl, 0, cl, 0, nums, 0, oob⟩ =
       ⟨(item k).length - (keyText k ++ closeB k).length, pl - ((item k).length - (keyText k ++ closeB k).length : Nat),
@@ -81,7 +90,7 @@ theorem patPrelude_item (pat : Bytes) (k : Kw) (hk : KwOK k) (rest : Bytes) (pl 
   | false =>
     simp [patPrelude, item, hopt, rd, closeB, brOf]
 
-theorem patPrelude_bare (pat : Bytes) (k : Kw) (hk : KwOK k) (hopt : k.optional = false) (rest : Bytes)
+theorem patPrelude_bare (pat : Bytes) (k : Kw) (hk : KwW k) (hopt : k.optional = false) (rest : Bytes)
     (pl : Int) (cl : Nat) (nums : List Int) (oob : Bool) (hpat : pat = keyText k ++ rest) :
     patPrelude pat ⟨0, pl, 0, cl, 0, nums, 0, oob⟩ = ⟨0, pl, 0, cl, brOf k, nums, 0, oob⟩ := by
   subst hpat
